@@ -97,7 +97,35 @@ def extract(src):
         vals['order_policy'] = order_of('pyramid/config/security.py', 'SecurityConfiguratorMixin.set_security_policy')
         vals['order_defperm'] = order_of('pyramid/config/security.py', 'SecurityConfiguratorMixin.set_default_permission')
         vals['order_view'] = order_of('pyramid/config/views.py', 'ViewsConfiguratorMixin.add_view')
+        # the legacy pair set_authentication_policy / set_authorization_policy: the model treats it as a policy statement
+        # (the authentication action registers LegacySecurityPolicy as ISecurityPolicy) -- same phase as set_security_policy,
+        # the authorization policy before it
+        oa = order_of('pyramid/config/security.py', 'SecurityConfiguratorMixin.set_authentication_policy')
+        oz = order_of('pyramid/config/security.py', 'SecurityConfiguratorMixin.set_authorization_policy', which=0, count=2)
+        if oa != vals['order_policy'] or not oz < oa:
+            raise Bad('phases of the legacy policy directives (%s, %s) differ from set_security_policy (%s)' % (oa, oz, vals['order_policy']))
     guard('action orders', orders)
+
+    def classes():
+        # class-level facts the model relies on (the coverage tool lists functions only)
+        m = F.Module(src, 'pyramid/security.py')
+        for cname, want in (('Denied', 0), ('Allowed', 1)):
+            c = m.find(cname)
+            if not (isinstance(c, ast.ClassDef) and [_name(b) for b in c.bases] == ['PermitsResult']):
+                raise Bad('%s is not a PermitsResult' % cname)
+            bv = [st.value.value for st in c.body if isinstance(st, ast.Assign) and _name(st.targets[0]) == 'boolval'
+                  and isinstance(st.value, ast.Constant)]
+            if bv != [want]:
+                raise Bad('%s.boolval is %r (truthiness of the policy answer)' % (cname, bv))
+        pr = m.find('PermitsResult')
+        if [_name(b) for b in pr.bases] != ['int']:
+            raise Bad('PermitsResult is not an int subclass')
+        e = F.Module(src, 'pyramid/exceptions.py')
+        for cname, base in (('PredicateMismatch', 'HTTPNotFound'), ('BadCSRFToken', 'HTTPBadRequest'), ('BadCSRFOrigin', 'HTTPBadRequest')):
+            c = e.find(cname)
+            if not (isinstance(c, ast.ClassDef) and [_name(b) for b in c.bases] == [base]):
+                raise Bad('%s does not derive from %s alone (exception classes of the table)' % (cname, base))
+    guard('class-level facts (PermitsResult truthiness, exception hierarchy)', classes)
 
     def forced():
         m = F.Module(src, 'pyramid/config/views.py')
